@@ -204,11 +204,32 @@ func (p *party) SetShareData(shareData []byte) error {
 	if err != nil {
 		return fmt.Errorf("failed deserializing shares: %w", err)
 	}
+	if err := validateShareData(&localSaveData); err != nil {
+		return err
+	}
 	localSaveData.ECDSAPub.SetCurve(elliptic.P256())
 	for _, xj := range localSaveData.BigXj {
 		xj.SetCurve(elliptic.P256())
 	}
 	p.shareData = &localSaveData
+	return nil
+}
+
+// validateShareData ensures the shares are complete, as the signing protocol takes that for granted
+func validateShareData(d *keygen.LocalPartySaveData) error {
+	if d.Xi == nil || d.ShareID == nil || d.ECDSAPub == nil || !d.LocalPreParams.Validate() ||
+		d.PaillierSK.N == nil || d.PaillierSK.LambdaN == nil || d.PaillierSK.PhiN == nil {
+		return fmt.Errorf("shares are incomplete")
+	}
+	n := len(d.Ks)
+	if n == 0 || len(d.BigXj) != n || len(d.NTildej) != n || len(d.H1j) != n || len(d.H2j) != n || len(d.PaillierPKs) != n {
+		return fmt.Errorf("shares are incomplete")
+	}
+	for j := 0; j < n; j++ {
+		if d.Ks[j] == nil || d.BigXj[j] == nil || d.NTildej[j] == nil || d.H1j[j] == nil || d.H2j[j] == nil || d.PaillierPKs[j] == nil || d.PaillierPKs[j].N == nil {
+			return fmt.Errorf("shares lack the data of party %d", j)
+		}
+	}
 	return nil
 }
 
